@@ -1,12 +1,17 @@
 """C11 — dates and times."""
 import e1
+import e2misc
 
 
 def run(tier, seed, ev, jobs):
     ev.exhaustive = True
-    ev.outside.append("date/time components embedded in longer field contents are covered through the field parsers of C05/C07")
-    return e1.run_e1("C11", tier, seed, ev, jobs)
+    rc = e2misc.run_fieldser("C11", ev, "both")
+    return e1.combine(rc, e1.run_e1("C11", tier, seed, ev, jobs))
 
 
 def replay(path):
-    return e1.replay_file(path)
+    r = e1.replay_file(path)
+    if r is None:
+        print(open(path).read())
+        return 1
+    return r
